@@ -9,7 +9,7 @@ fn contents<T: Elem>(v: &CVec<T>) -> Vec<i64> {
 
 fn go<T: Elem + Clone>(ops: &Rows, mon: &mut Mon) -> Rows {
     let mut out: Rows = Vec::new();
-    let mut v: CVec<T> = CVec::from(Vec::<T>::new());
+    let mut v: CVec<T> = CVec::default();
     let mut oracle: Vec<i64> = Vec::new();
     let _ = take_drops();
     for (k, op) in ops.iter().enumerate() {
@@ -82,6 +82,7 @@ fn go<T: Elem + Clone>(ops: &Rows, mon: &mut Mon) -> Rows {
         // monitor: same contents/len as Vec after every op; capacity >= len
         if contents(&v) != oracle || v.len() != oracle.len() { mon.fail(format!("op{} contents differ from Vec", k)); }
         if v.capacity() < v.len() { mon.fail(format!("op{} capacity<len", k)); }
+        if v.is_empty() != oracle.is_empty() || (v.len() > 0 && v.as_ptr() != v.as_mut_ptr() as *const T) { mon.fail(format!("op{} is_empty/as_ptr disagree", k)); }
         out.push(row);
         out.push(take_drops());
     }
